@@ -273,6 +273,9 @@ let eval inp obs =
       note = (if bad = [] then "" else "rows violating the lock discipline: " ^
                 String.concat "," (List.map (fun (ty, m, _, _) -> ty ^ "." ^ m) bad)) ^
              (if missing = [] then "" else " methods without a row: " ^ String.concat "," missing) }
+  | _ when has_tok "skipped=1" obs ->
+    { default_verdict with model_obs = obs; indeterminate = true; nontrivial = false;
+      note = "not run: the component hung or crashed three times earlier in this run" }
   | kind :: _ when kind = "LIN" || kind = "STRESS" || kind = "EBMID" || kind = "SNAPMID" || kind = "POOLMID" ->
     let race = not (has_tok "race=0" obs) in
     let crash = has_tok "crash=1" obs || has_tok "hang=1" obs in
